@@ -1464,6 +1464,14 @@ fn compile_sources_with_generics_preserved(
   }
 }
 
+#[cfg(samlang_verif)]
+pub(super) fn verif_compile_sources_with_generics_preserved(
+  heap: &mut Heap,
+  sources: &HashMap<ModuleReference, source::Module<Arc<type_::Type>>>,
+) -> hir::Sources {
+  compile_sources_with_generics_preserved(heap, sources)
+}
+
 fn optimize_by_tail_rec_rewrite(heap: &mut Heap, sources: mir::Sources) -> mir::Sources {
   let mir::Sources {
     symbol_table,
